@@ -57,13 +57,21 @@ def gen_edits(rng, model: dict, nvar: int, max_nbr: int) -> list[dict]:
             edits.append({'e': 'del-route', 'n': i, 'k': rng.randint(0, 5)})
         elif k < 0.75:
             edits.append({'e': 'chg-route', 'n': i, 'k': rng.randint(0, 5), 'nh': rng.choice(['self', '10.0.0.9', '10.0.0.77']), 'v': rng.randint(0, nvar - 1)})
-        elif k < 0.83:
+        elif k < 0.80:
             edits.append({'e': 'chg-hold', 'n': i})
+        elif k < 0.84:
+            # the neighbor gains (or loses) an address family together with a configured route of that family
+            edits.append({'e': 'tgl-family', 'n': i, 'v': rng.randint(0, nvar - 1)})
         elif k < 0.92:
             edits.append({'e': 'del-nbr', 'n': i})
         else:
             edits.append({'e': 'add-nbr', 'n': str(rng.randint(0, max_nbr - 1))})
     return edits
+
+
+def rng_nh6(nh4: str) -> str:
+    """an IPv6 next hop standing in for the IPv4 one an edit names (`self` would need an IPv6 session)"""
+    return {'self': '2001:db8::1', '10.0.0.9': '2001:db8::9', '10.0.0.77': '2001:db8::77'}.get(nh4, '2001:db8::1')
 
 
 def apply_edits(model: dict, edits: list[dict]) -> dict:
@@ -84,9 +92,17 @@ def apply_edits(model: dict, edits: list[dict]) -> dict:
             del nb['routes'][key]
         elif k == 'chg-route' and nb['routes']:
             key = sorted(nb['routes'])[e['k'] % len(nb['routes'])]
-            nb['routes'][key] = {'nh': e['nh'], 'v': e['v']}
+            nb['routes'][key] = {'nh': e['nh'] if ':' not in key else rng_nh6(e['nh']), 'v': e['v']}
         elif k == 'chg-hold':
             nb['hold'] = 90 if nb['hold'] != 90 else 45
+        elif k == 'tgl-family':
+            p6 = f'2001:db8:{nb["idx"]}::/48'
+            if nb.get('v6'):
+                nb['v6'] = False
+                nb['routes'].pop(p6, None)
+            else:
+                nb['v6'] = True
+                nb['routes'][p6] = {'nh': '2001:db8::1', 'v': e['v']}
         elif k == 'del-nbr' and len(m['neighbors']) > 1:
             del m['neighbors'][e['n']]
     return m
@@ -101,7 +117,7 @@ def model_text(model: dict, variants) -> str:
         confs.append(
             {
                 'peer_ip': RW.PEER_IPS[i], 'local_ip': LOCAL, 'local_as': 65001, 'peer_as': RW.PEER_AS[i], 'router_id': LOCAL, 'hold': nb['hold'],
-                'families': [(1, 1)], 'adj-rib-out': nb.get('aro', True), 'api': {'processes': ['h1']}, 'static': static,
+                'families': [(1, 1)] + ([(2, 1)] if nb.get('v6') else []), 'adj-rib-out': nb.get('aro', True), 'api': {'processes': ['h1']}, 'static': static,
             }
         )  # fmt: skip
     return config_text([{'name': 'h1'}], confs)
@@ -210,7 +226,7 @@ def execute(plan: dict) -> dict:
     model = jclone(plan['model'])
     speakers = {}
     for i in range(3):
-        speakers[i] = Speaker(w, f'p{i}', RW.PEER_IPS[i], RW.PEER_AS[i], RW.PEER_IPS[i], LOCAL, hold=90, caps=speaker_caps({'asn': RW.PEER_AS[i]}))
+        speakers[i] = Speaker(w, f'p{i}', RW.PEER_IPS[i], RW.PEER_AS[i], RW.PEER_IPS[i], LOCAL, hold=90, caps=speaker_caps({'asn': RW.PEER_AS[i], 'families': [(1, 1), (2, 1)]}))
     w.boot(model_text(model, variants))
     h = w.procs.helper('h1')
 
@@ -232,7 +248,7 @@ def execute(plan: dict) -> dict:
         return out
 
     def is_conf_key(k) -> bool:
-        return k[3].startswith('192.0.')
+        return k[3].startswith('192.0.') or k[3].startswith('2001:db8:')
 
     def snapshot_state() -> dict:
         conf = w.reactor.configuration
